@@ -59,20 +59,20 @@ def std_runs(n, stubbing=False, heavy=False, **kw):
 PROPS = {
     "C01": dict(
         runs=std_runs(1, heavy=True),
-        bounds="scalars/sums/products at full width; sequences with <= 3 symbolic elements (concrete count per query); maps/sets with <= 2 symbolic keys or 3 concrete keys; 18-tuple of u8",
-        outside="sequences of > 3 non-ZST elements (same loop body, not re-proved); counts >= 2^14 on the encode side except where C15/C18 reach the prefix; bit sequences spanning >= 2 store words",
+        bounds="scalars/sums/products at full width; sequences with <= 3 symbolic elements (concrete count per query) and at the count-prefix boundary 63/64/65 elements (Vec, slice, deque, str) and 16384 (real scale, thorough); maps/sets with <= 2 symbolic keys or 3 concrete keys; tuples of arity 1-5, 9, 12, 18; unsized holders Box<[T]>/Box<str>/Rc<str>/Arc<[T]>; element types that are zero-sized in memory but not on the wire; a representative subset of the derived family; bit slices: Lsb0 order, u8 store, slices inside one word not reaching its last bit",
+        outside="sequences of 4..62 and > 65 non-ZST elements (same loop body, not re-proved); counts >= 2^30 on the encode side; bit sequences in Msb0 order, u16+ stores, touching the end of their word or spanning >= 2 words (bitvec's bit-copy code does not finish within 300 s)",
         explanation="real Encode::encode_to of each type into a fixed sink vs. the independent SCALE reference encoder, byte for byte, all contents symbolic; every panic/overflow/OOB check on the encode path is a CBMC obligation (no-panic clause).",
     ),
     "C02": dict(
         runs=std_runs(2, heavy=True),
-        bounds="scalars/sums/products at full width; sequences with <= 3 symbolic elements (count concrete per query, handed to the decoder as a concrete prefix: rule R2); maps/sets with 1 entry; symbolic 2-byte suffix after every encoding",
-        outside="element-path sequences straddling the 16 KiB window at real scale (see the heavy tier); maps with >= 2 entries on the decode side (C03 thorough covers 2); nesting deeper than 2",
+        bounds="scalars/sums/products at full width; sequences with <= 3 symbolic elements (count concrete per query, handed to the decoder as a concrete prefix: rule R2); maps/sets with 1 entry; symbolic 2-byte suffix after every encoding; element types with an EMPTY encoding but non-zero size, and zero-sized element types with a NON-empty encoding; derived subset incl. repr(transparent) newtypes through Box; real scale (thorough): u8 x {16383,16384,16385}, u32 x 4097 over slice and unknown-length inputs, 8 KiB elements across two chunk reservations",
+        outside="element-path sequences of small elements straddling the 16 KiB window (8193+ loop iterations); maps with >= 2 entries on the decode side (C03 thorough covers 2); nesting deeper than 2",
         explanation="symbolic value -> real encode_to -> append a symbolic suffix -> real decode: Ok, logically equal (floats by bits, heaps as multisets), consumed exactly the encoding, suffix untouched.",
     ),
     "C03": dict(
         runs=std_runs(3),
         bounds="fixed-shape types: ALL byte strings of symbolic length <= size+1; containers: element count <= 3 (concrete, served as a concrete prefix), ALL payloads of symbolic length <= Lmax+1 (concrete length for String/maps/sets); Vec<u8>/Vec<u16> additionally with a fully symbolic count prefix (all strings <= 5/6 bytes); hostile counts 63 (one-byte prefix) for every container and 2^14, 2^30, 2^32-1, usize::MAX through decode_vec_with_len, over slice and unknown-length inputs",
-        outside="long random strings; maps with >= 3 entries; multi-byte count prefixes in front of element-path containers (the prefix decoder itself is decided for all strings in C04)",
+        outside="long random strings; maps with >= 3 entries; nested element-path sequences with symbolic inner counts (out of memory at 3-4 payload bytes); multi-byte count prefixes in front of element-path containers (the prefix decoder itself is decided for all strings in C04)",
         explanation="real Decode::decode vs. an independent reference decoder on the same symbolic bytes: same accept/reject, same value, same consumed length, and every accepted input is the reference encoding of the returned value. Totality = no failed CBMC check (panic, unreachable!, overflow, OOB, invalid free) and satisfied unwinding assertions.",
     ),
     "C04": dict(
